@@ -14,7 +14,7 @@ RULE = (
     "{'x','y',1,2,null,['x'],['x','y'],0,'',[],'1','None',['1'],[1]} x non-empty key list x filter key/values x count >= 0. Oracles: merge_events_by_keys against grouping by the tuple "
     "((k present?, value) for k in keys): one output per group, same presence/value pattern, exact us duration sum, total conserved; chunk_events_by_key "
     "(every event has the key): subevents concatenate to the input, share the chunk's value, durations add up, runs maximal when input is time-sorted with "
-    "all gaps < pulsetime; sort_by_*: ordered permutation of the same objects; limit_events: prefix; filter/exclude_keyvals: order-preserving complementary split; "
+    "all gaps < pulsetime; sort_by_*: ordered permutation of the same objects; limit_events: prefix; filter/exclude_keyvals: order-preserving complementary split (value lists of 0..3, one case in five of 12..40 entries); "
     "sum_durations within 1 us per 1e9 us; none modifies its input. Non-trivial = two events whose presence patterns differ but whose present values coincide, "
     "or a list-valued key, or a run of >= 3 equal chunk values."
 )
@@ -61,7 +61,8 @@ def strategy(draw, tier="quick"):
         "keys": keys,
         "chunk_vals": chunk_vals,
         "filter_key": draw(st.sampled_from(["a", "b", "c", "zz"])),
-        "filter_vals": draw(st.lists(st.sampled_from(VALUES), max_size=3)),
+        # mostly a few values; one case in five a long list of them (what a category or host list looks like), repeats included
+        "filter_vals": draw(st.lists(st.sampled_from(VALUES), max_size=3)) if draw(st.integers(0, 4)) else draw(st.lists(st.sampled_from(VALUES + ["y", "z", 2, 3, ["x", "y"], ["y"], "", 0]), min_size=12, max_size=40)),
         "count": draw(st.integers(0, 18)),
     }
 
@@ -212,6 +213,8 @@ def run_case(case):
         classes.append("run_of_3")
     if is_sorted and len(evs) > 1:
         classes.append("time_sorted")
+    if len(case["filter_vals"]) >= 12:
+        classes.append("long_filter_value_list")
     return {"nontrivial": collide or listval or run3, "classes": classes, "evals": 7}
 
 
